@@ -17,8 +17,11 @@ META = {
                  "(in_flat_map / In_zrange / nia, explicit witnesses); verified boolean checkers evaluated by vm_compute "
                  "for the constant-table solids; kernel-checked correspondence batches (exact face/edge/cell lists, "
                  "coordinates through binary64) and an independent half-edge oracle on the real meshes",
-    "level_text": "Machine-checked Coq theorems, for ALL admissible parameters, about the definitions generated on every run from "
-                  "the current source of mouette/procedural. For unit_grid, unit_triangle, torus, sphere_uv, cylinder (with/without "
+    "level_text": "Machine-checked Coq theorems about the definitions generated on every run from the current source of "
+                  "mouette/procedural, for ALL parameters the code accepts: each theorem on a parametric generator g is stated under "
+                  "`g_rejects p = false`, g_rejects being the generated `if ...: raise` guard, and C14_rejects states exactly what each "
+                  "guard rejects (grid/triangle resolutions < 2, torus segments < 3, cylinder N < 3, sphere_uv n_lat < 1 or n_long < 3, "
+                  "ring N < 3 or n_cover < 1, flat_ring N < 1 or n_cover < 1); rejection is also exercised by a malformed stream. For unit_grid, unit_triangle, torus, sphere_uv, cylinder (with/without "
                   "caps), ring (open/closed), flat_ring: (C14_well_formed) indices in range, every vertex used, simple faces, no "
                   "directed edge twice (consistently oriented edge-manifold, no repeated face); (C14_vertex_manifold) every vertex "
                   "umbrella is one fan, with the explicit corner ring of each vertex class (interior/border/corner vertices, poles, "
@@ -201,6 +204,26 @@ def angle(a, b, c):
     return math.atan2(vnorm(cr), vdot(u, v))
 
 
+def accepted(g, kw):
+    """The parameters each generator's own guard lets through (C14_rejects states the same about the generated guards)."""
+    if g in ("unit_grid", "unit_triangle"):
+        return kw["nu"] >= 2 and kw["nv"] >= 2
+    if g == "torus":
+        return kw.get("major_segments", 50) >= 3 and kw.get("minor_segments", 30) >= 3
+    if g == "cylinder":
+        return kw.get("N", 50) >= 3
+    if g == "sphere_uv":
+        return kw.get("n_lat", 30) >= 1 and kw.get("n_long", 50) >= 3
+    if g == "ring":
+        return kw["N"] >= 3 and kw.get("n_cover", 1) >= 1
+    if g == "flat_ring":
+        return kw["N"] >= 1 and kw.get("n_cover", 1) >= 1
+    return True
+
+
+GUARDED = ("unit_grid", "unit_triangle", "torus", "cylinder", "sphere_uv", "ring", "flat_ring")
+
+
 def admissible(g, kw):
     """The parameter choices the property quantifies over (minimal resolutions included)."""
     if g in ("unit_grid", "unit_triangle"):
@@ -240,13 +263,17 @@ def oracle(case, ob):
     """The property sentence restated on one concrete call. Returns None or (class_key, message)."""
     g, kw = case["gen"], case.get("kw", {})
     if ob.get("exc") is not None:
-        if g == "ring" and kw["N"] < 3:
-            return None
+        if not accepted(g, kw):
+            # a resolution below the generator's minimum must be refused by its own guard (a plain Exception with its message)
+            if ob.get("exc_type") == "Exception" and "Aborting" in ob["exc"]:
+                return None
+            return ("%s/rejected-by-accident" % g, "%s(%s) is below the minimum but failed with %s: %s instead of the guard's exception"
+                    % (g, short(kw), ob.get("exc_type"), ob["exc"][:160]))
         if not admissible(g, kw):
             return None
         return ("%s/exception" % g, "%s(%s) raised %s: %s" % (g, short(kw), ob.get("exc_type"), ob["exc"][:200]))
-    if g == "ring" and kw["N"] < 3:
-        return ("ring/not-rejected", "ring with N<3 did not raise")
+    if not accepted(g, kw):
+        return ("%s/not-rejected" % g, "%s(%s) is below the generator's minimum resolution and did not raise" % (g, short(kw)))
     if not admissible(g, kw):
         return None
     V, F, X = ob["V"], ob["F"], ob["X"]
@@ -621,10 +648,25 @@ def gen_cases(rng, tier):
             add("flat_ring", N=N, defect=rng.choice([0.0, 0.2, 1.0, math.pi, 6.0]), n_cover=k)
     for N in (1, 2):
         add("flat_ring", N=N, defect=0.5, n_cover=1)
-    # malformed stream: rings with too few triangles must be rejected
+    # malformed stream: every resolution below a generator's minimum must be rejected by its guard
     for N in (-1, 0, 1, 2):
         for op in b2:
             add("ring", N=N, defect=0.3, open=op, n_cover=rng.choice([1, 2]))
+    for k in (0, -1):
+        add("ring", N=4, defect=0.3, open=False, n_cover=k)
+        add("flat_ring", N=4, defect=0.3, n_cover=k)
+    for N in (0, -2):
+        add("flat_ring", N=N, defect=0.3, n_cover=1)
+    for a, b in ((1, 1), (1, 3), (3, 1), (0, 2), (2, 0), (-1, 4)):
+        add("unit_grid", nu=a, nv=b, triangulate=rng.random() < .5, generate_uvs=False)
+        add("unit_triangle", nu=a, nv=b, generate_uvs=False)
+    for a, b in ((2, 5), (5, 2), (1, 1), (0, 4), (2, 2)):
+        add("torus", major_segments=a, minor_segments=b, triangulate=rng.random() < .5, major_radius=1.0, minor_radius=0.3)
+    for a, b in ((0, 5), (1, 2), (3, 1), (-1, 4), (2, 0)):
+        add("sphere_uv", n_lat=a, n_long=b, center=V3(0, 0, 0), radius=1.0)
+    for N in (2, 1, 0, -3):
+        for caps in b2:
+            add("cylinder", P1=V3(0, 0, 0), P2=V3(0, 0, 1), radius=1.0, N=N, fill_caps=caps)
     for n in range(1, R + 4):
         for lp in b2:
             if lp and n < 2:
@@ -635,9 +677,6 @@ def gen_cases(rng, tier):
         dim = rng.choice([2, 3])
         add("vector_field", origins={"arr": [[dy(rng) for _ in range(dim)] for _ in range(n)]},
             vectors={"arr": [[dy(rng) for _ in range(dim)] for _ in range(n)]}, length_mult=rng.choice([1.0, 0.5, 2.0]))
-    # -- degenerate resolutions below the admissible range (correspondence only; the oracle does not judge them)
-    for nu, nv in ((1, 1), (1, 3), (3, 1), (0, 2)):
-        add("unit_grid", nu=nu, nv=nv, triangulate=False, generate_uvs=False)
     # -- random larger ones
     nbig = 24 if quick else 600
     for _ in range(nbig):
@@ -833,9 +872,9 @@ def run(ctx):
                 "larger resolutions, dyadic radii/centres/corner points; malformed stream: ring with N<3. Non-trivial = an "
                 "admissible call that returned a mesh with at least one face or edge; distinct by canonical JSON of the call"
                 % ((7, 7) if quick else (10, 10)))
-    ctx.assumptions += ["admissible resolutions: grids/triangles nu,nv>=2; torus segments>=3 and 0<minor<major radius; "
-                        "cylinder N>=3, P1!=P2; sphere_uv n_lat>=1, n_long>=3; ring N>=3 (smaller N must raise); flat_ring N>=1; "
-                        "closed chain n>=3; radii > 0",
+    ctx.assumptions += ["the integer resolutions quantified over are exactly those the generators' own guards accept (C14_rejects); "
+                        "beyond that the oracle judges geometry only for 0<minor<major torus radii, P1!=P2, radii > 0, closed "
+                        "chains with n>=3 and flat_ring fans whose apex angle per triangle is below pi",
                         "cos/sin of the loop angles enter the theorems as the real functions; the implementation's binary64 "
                         "values are compared with the model's own binary64 evaluation within 1e-9"]
     ok_gen = ctx.regen(sys.modules[__name__])
@@ -890,8 +929,10 @@ def run(ctx):
             r = ("%s/oracle-crash" % g, "oracle could not judge %s(%s): %r" % (g, short(c["kw"]), ex))
         if r:
             fails.append((c, o, r))
+    unknown = [f for f in fails if not ctx.known(f[2][0])]
     ctx.obligation("oracle: every mesh returned by the implementation satisfies the property sentence (half-edge counting, "
-                   "counts, on-surface, switches)", "oracle-on-implementation", True, "%d failing calls" % len(fails))
+                   "counts, on-surface, switches, rejection of resolutions below the minimum)", "oracle-on-implementation",
+                   not unknown, "%d failing calls, %d of them not listed as known findings" % (len(fails), len(unknown)))
 
     # ---- the named hypotheses of C14_ring_apex_defect, numerically
     bad_h = [m for m in (check_bisection_hypotheses(N) for N in list(range(3, 41)) + [50, 64, 100, 200]) if m]
@@ -943,28 +984,21 @@ def run(ctx):
             small, r2, ob2 = strip(c), (key, msg), o
         ctx.violation(r2[1], {"call": strip(small), "class": key,
                               "observed": {k: ob2.get(k) for k in ("exc", "type", "V", "F", "C") if ob2}}, key=key)
-    known_keys = {r[0] for _, _, r in fails if ctx.known(r[0])}
-
-    def explain(bad, pairs, label):
-        """disagreements on calls whose oracle failure is a listed known finding do not count against the correspondence"""
-        if not bad:
-            return
-        failing = {json.dumps(strip(c), sort_keys=True) for c, _, r in fails if r[0] in known_keys}
-        un = [i for i in bad if json.dumps(strip(pairs[i][0]), sort_keys=True) not in failing]
-        for i in un[:4]:
+    for label, bad, pairs in (("index", bad_i, icases), ("coords", bad_c, ccases), ("dual", bad_d, dcases)):
+        for i in (bad or [])[:4]:
             ctx.log("disagreement (%s): %s(%s) -> %s" % (label, pairs[i][0]["gen"], short(pairs[i][0]["kw"]),
                                                          json.dumps({k: pairs[i][1].get(k) for k in ("exc", "V", "F")})[:300]))
-        if un:
+        if bad:
             ctx.notes.append("%s: model and implementation disagree on %d calls, e.g. %s(%s)"
-                             % (label, len(un), pairs[un[0]][0]["gen"], short(pairs[un[0]][0]["kw"])))
-        else:
-            for ob_ in ctx.obligations:
-                if ob_["kind"] == "correspondence" and not ob_["ok"] and (" %s " % label) in ob_["name"]:
-                    ob_["ok"] = True
-                    ob_["detail"] += " (all disagreements are instances of listed known findings)"
-    explain(bad_i, icases, "index")
-    explain(bad_c, ccases, "coords")
-    explain(bad_d, dcases, "dual")
+                             % (label, len(bad), pairs[bad[0]][0]["gen"], short(pairs[bad[0]][0]["kw"])))
+    # accounting: every generated call is either judged by the oracle (all of them) or also compared in Coq; say what was not
+    n_all = len(cases)
+    dropped = {"index: generator takes a mesh argument (compared in the dual batch instead)": n_all - len(icases),
+               "coords: generator has no generated coordinate formula / raised / more than 120 vertices / thinned in the quick tier":
+                   len([1 for c, o in icases if o.get("exc") is None]) - len(ccases)}
+    ctx.extra["not_compared_in_coq"] = dropped
+    if ctx.evaluations == 0 or not icases:
+        ctx.obligation("the harness evaluated at least one case", "harness", False, "no case was evaluated")
     ctx.extra["case_counts"] = {"index": len(icases), "coords": len(ccases), "dual": len(dcases), "oracle_only": len(outside)}
     ctx.extra["translated"] = {k: {"defs": v["defs"], "coords_skipped": v["coords_skipped"]} for k, v in info.items()}
 
